@@ -230,6 +230,7 @@ func textREMatch(args ...tengo.Object) (ret tengo.Object, err error) {
 	matched, err := regexp.MatchString(s1, s2)
 	if err != nil {
 		ret = wrapError(err)
+		err = nil
 		return
 	}
 
@@ -262,6 +263,7 @@ func textREFind(args ...tengo.Object) (ret tengo.Object, err error) {
 	re, err := regexp.Compile(s1)
 	if err != nil {
 		ret = wrapError(err)
+		err = nil
 		return
 	}
 
@@ -375,6 +377,7 @@ func textREReplace(args ...tengo.Object) (ret tengo.Object, err error) {
 	re, err := regexp.Compile(s1)
 	if err != nil {
 		ret = wrapError(err)
+		err = nil
 	} else {
 		s, ok := doTextRegexpReplace(re, s2, s3)
 		if !ok {
@@ -430,6 +433,7 @@ func textRESplit(args ...tengo.Object) (ret tengo.Object, err error) {
 	re, err := regexp.Compile(s1)
 	if err != nil {
 		ret = wrapError(err)
+		err = nil
 		return
 	}
 
@@ -462,6 +466,7 @@ func textRECompile(args ...tengo.Object) (ret tengo.Object, err error) {
 	re, err := regexp.Compile(s1)
 	if err != nil {
 		ret = wrapError(err)
+		err = nil
 	} else {
 		ret = makeTextRegexp(re)
 	}
@@ -930,6 +935,7 @@ func textParseBool(args ...tengo.Object) (ret tengo.Object, err error) {
 	parsed, err := strconv.ParseBool(s1.Value)
 	if err != nil {
 		ret = wrapError(err)
+		err = nil
 		return
 	}
 
@@ -971,6 +977,7 @@ func textParseFloat(args ...tengo.Object) (ret tengo.Object, err error) {
 	parsed, err := strconv.ParseFloat(s1.Value, i2)
 	if err != nil {
 		ret = wrapError(err)
+		err = nil
 		return
 	}
 
@@ -1018,6 +1025,7 @@ func textParseInt(args ...tengo.Object) (ret tengo.Object, err error) {
 	parsed, err := strconv.ParseInt(s1.Value, i2, i3)
 	if err != nil {
 		ret = wrapError(err)
+		err = nil
 		return
 	}
 
